@@ -490,10 +490,13 @@ func oneHPHistory(r *mon.Run, i int, dir string) {
 		return
 	}
 	quiet := dbMode{file: mode.file, dir: mode.dir}
-	small := shrink(ops, f.At, f.Key, func(c []hpOp) *failure {
-		ff, _ := runHPHistory(r, setup, pool, c, quiet, false)
-		return ff
-	})
+	small := ops[:f.At+1]
+	if wantShrink(f.Key) {
+		small = shrink(ops, f.At, f.Key, func(c []hpOp) *failure {
+			ff, _ := runHPHistory(r, setup, pool, c, quiet, false)
+			return ff
+		})
+	}
 	var idx []int
 	for _, op := range small {
 		for _, s := range op.Segs {
@@ -542,7 +545,7 @@ func checkC45(r *mon.Run) {
 		return
 	}
 
-	n := r.Pick(1500, 30000)
+	n := devLimit(r.Pick(1500, 30000))
 	parallel(n, workers(), func(i int) { oneHPHistory(r, i, dir) })
 
 	r.Require(int64(n)*15, 60,
